@@ -4,7 +4,7 @@
    dup_identifier_in_transaction); be_holds P be = the backend maps the identifier of every named node of P to that
    node's own document.  Text level (json text, expression strings, float repr) is outside the model. *)
 From Coq Require Import String List ZArith QArith Bool.
-Require Import QV.C10.Model QV.C10.Spec QV.C10.Iface QV.C10.Hist QV.C10.SpecHist QV.C10.Proofs QV.C10.Proofs_store QV.C10.Proofs_share QV.C10.Proofs_iface QV.C10.Proofs_guard QV.C10.SpecInl QV.C10.Proofs_guard2 QV.C10.Proofs_hist QV.C10.Witness QV.C10.Witness_hist QV.C10.Dur QV.C10.Proofs_dur QV.C10.Tx.
+Require Import QV.C10.Model QV.C10.Spec QV.C10.Iface QV.C10.Hist QV.C10.SpecHist QV.C10.Proofs QV.C10.Proofs_store QV.C10.Proofs_share QV.C10.Proofs_iface QV.C10.Proofs_guard QV.C10.SpecInl QV.C10.Proofs_guard2 QV.C10.Proofs_hist QV.C10.Witness QV.C10.Witness_hist QV.C10.Dur QV.C10.Proofs_dur QV.C10.Tx QV.C10.Proofs_tx.
 Import ListNotations.
 Open Scope string_scope.
 
@@ -258,7 +258,8 @@ Proof. exact amc_order_observable. Qed.
 Print Assumptions C10_amc_order_observable.
 
 (* ---- round 4: the transaction guard of repo commit a5bca40 (Tx.v) -------------------------------------------------------- *)
-(* the guarded operations (what the correspondence check runs) are the core operations whenever the guard does not fire ... *)
+(* the guarded operations (what the correspondence check runs) are the core operations whenever the guard does not fire
+   (definitional unfolding; the content is C10_tx_guard_silent below) ... *)
 Theorem C10_tx_guard_transparent : forall s key p, tx_reject s key p = false ->
   overwrite_tx s key p = overwrite_as s key p /\ store_as_tx s key p = store_as s key p.
 Proof. intros s key p H. unfold store_as_tx, overwrite_tx. rewrite H. split; reflexivity. Qed.
@@ -269,3 +270,39 @@ Print Assumptions C10_tx_guard_transparent.
 Theorem C10_tx_guard_rejects_dup : store_as_tx (empty_s []) "s" dup_P = Err ERuntime /\ tx_reject (empty_s []) "s" ex_P = false.
 Proof. split; vm_compute; reflexivity. Qed.
 Print Assumptions C10_tx_guard_rejects_dup.
+
+(* ---- round 5: the guard never fires on trees without identifier clashes -------------------------------------------------- *)
+(* in EVERY storage state: a tree in which one identifier is one object is never rejected by the transaction guard (no two
+   entries of the transaction share an identifier, and the stored key is not met again below the root: a proper descendant
+   with the root's identifier would be the root) *)
+Theorem C10_tx_guard_silent : forall s i P, consistent P -> pt_id P = Some i -> tx_reject s i P = false.
+Proof. exact tx_guard_silent. Qed.
+Print Assumptions C10_tx_guard_silent.
+
+(* ... so the histories the correspondence check runs (hrun_tx / hrun2_tx = the code since repo commit a5bca40) are the core
+   histories that C10_storage_history and C10_history_ops are about *)
+Theorem C10_guarded_store_histories_are_core : forall ops h,
+  (forall w p, In (w, p) ops -> consistent p) -> hrun_tx h ops = hrun h ops.
+Proof. exact hrun_tx_core. Qed.
+Print Assumptions C10_guarded_store_histories_are_core.
+
+Theorem C10_guarded_histories_are_core : forall ops h, Forall keyed ops ->
+  (forall o p, In o ops -> hop_pt o = Some p -> consistent p) -> hrun2_tx h ops = hrun2 h ops.
+Proof. exact hrun2_tx_core. Qed.
+Print Assumptions C10_guarded_histories_are_core.
+
+(* the main statement for the guarded store: store through a fresh PulseStorage (with the transaction guard), load through
+   another fresh one *)
+Theorem C10_storage_guarded : forall P s' i, wf P = true -> consistent P -> pt_id P = Some i ->
+  store_as_tx (empty_s []) i P = Ok s' ->
+  exists p' st', load (length (nodes P)) (s_be s') fresh_l i = Ok (p', st') /\ erase p' = erase P.
+Proof. exact storage_guarded. Qed.
+Print Assumptions C10_storage_guarded.
+
+(* non-vacuity: the guarded store of the example tree (shared named child) succeeds *)
+Theorem C10_storage_guarded_example : exists s', store_as_tx (empty_s []) "s" ex_P = Ok s' /\ be_holds ex_P (s_be s').
+Proof.
+  destruct ex_P_ok as (_ & HC & Hi & (s' & E & B) & _). exists s'. split; [|exact B].
+  destruct (tx_ops_core (empty_s []) "s" ex_P HC Hi) as [_ ->]. rewrite <- (Proofs_hist.store_as_store _ _ _ Hi). exact E.
+Qed.
+Print Assumptions C10_storage_guarded_example.
